@@ -62,3 +62,21 @@ package core
 //@   ensures firstWithID(r.pendingPeers, peerID, result)
 //@   loop 1 invariant forall j :: 0 <= j && j <= rangeindex ==> pid(r.pendingPeers[j]) != peerID
 //@   modifies nothing
+
+// ---- C15: the cluster GC safe point in storage (ghost kv store: kvhas/kvval) ----
+//@ pure gcKey() = gocall("path.Join#0/2", "gc", "safe_point")
+//@ pure gcStored() = ite(!kvhas[gcKey()] || kvval[gcKey()] == "", 0, euf("parseuint", kvval[gcKey()], 16))
+//@ pure gcParsable() = !kvhas[gcKey()] || kvval[gcKey()] == "" || eufb("parseuint_ok", kvval[gcKey()], 16)
+
+//@ func (*Storage).LoadGCSafePoint
+//@   props C15
+//@   ensures [value] r1 == nil ==> r0 == gcStored()
+//@   option event LoadGCSafePoint
+//@   modifies nothing
+
+//@ func (*Storage).SaveGCSafePoint
+//@   props C15
+//@   ensures [saved] result == nil ==> gcStored() == safePoint && gcParsable()
+//@   ensures [failed] result != nil ==> (kvval == old(kvval) && kvhas == old(kvhas)) || (gcStored() == safePoint && gcParsable())
+//@   ensures [only-gckey] forall k :: k != gcKey() ==> kvval[k] == old(kvval[k]) && kvhas[k] == old(kvhas[k])
+//@   modifies ghost kvhas, ghost kvval
